@@ -512,6 +512,23 @@ impl Wal {
         })
     }
 
+    /// Recovery step for the owner of the log (not for readers such as backup, which may look
+    /// at a log that is being appended to): whatever follows the last well-formed record (a
+    /// torn record, zero-filled or garbage space left by a crash) is not part of the log. It is
+    /// cut off, because appends go to the end of the file and records written behind such a
+    /// tail would never be read again.
+    pub fn discard_malformed_tail(&mut self) -> Result<()> {
+        let Some(file) = self.file.as_mut() else {
+            return Err(Error::WalProtocol("wal file is closed"));
+        };
+        let valid_len = WalReader::open(&self.path)?.valid_prefix_len()?;
+        if file.metadata()?.len() > valid_len {
+            file.set_len(valid_len)?;
+            file.sync_data()?;
+        }
+        Ok(())
+    }
+
     #[inline]
     pub fn path(&self) -> &Path {
         &self.path
@@ -799,6 +816,12 @@ impl WalReader {
         Ok(Self { file, offset: 0 })
     }
 
+    /// Length of the prefix of the file that consists of well-formed records.
+    fn valid_prefix_len(&mut self) -> Result<u64> {
+        while self.next_record()?.is_some() {}
+        Ok(self.offset)
+    }
+
     fn next_record(&mut self) -> Result<Option<(u64, WalRecord)>> {
         let record_offset = self.offset;
 
@@ -806,9 +829,11 @@ impl WalReader {
             return Ok(None);
         };
 
+        // A record is never empty and never larger than the limit `append` enforces through
+        // the page size: such a header can only be the start of a torn or garbage tail.
         const MAX_WAL_RECORD_LEN: u32 = 1024 * 1024; // 1MB
-        if len > MAX_WAL_RECORD_LEN {
-            return Err(Error::WalRecordTooLarge(len));
+        if len == 0 || len > MAX_WAL_RECORD_LEN {
+            return Ok(None);
         }
 
         let Some(crc) = self.try_read_u32()? else {
@@ -830,9 +855,13 @@ impl WalReader {
             return Ok(None);
         }
 
-        self.offset += 4 + 4 + len as u64;
+        // A frame whose checksum matches but whose body is no record (random bytes can do
+        // that for tiny bodies) ends the log like any other malformed tail.
+        let Ok(record) = WalRecord::decode_body(&body) else {
+            return Ok(None);
+        };
 
-        let record = WalRecord::decode_body(&body)?;
+        self.offset += 4 + 4 + len as u64;
         Ok(Some((record_offset, record)))
     }
 
